@@ -53,7 +53,7 @@ def rr_setup(sort):
     def f(S):
         t = sym_tree(S, "t", frozen=True, extra_cols=("tag",))
         r = S.int("new_root")
-        return dict(tree=t, new_root=r, sort=sort, __ghost__={"root": S.int("root"), "srootrow": r})
+        return dict(tree=t, new_root=r, sort=sort, __ghost__={"root": S.int("root"), "srootrow": r, "input": t})
 
     return f
 
@@ -104,11 +104,17 @@ def _handles_on(v, t):
 
 
 def rr_inv0(which):
-    """loop 0 (walk to the root): path[0] = new_root, path[j+1] = pid[path[j]], depth falls by one per step"""
-    def f(E, v, o):
+    """loop 0 (walk to the root).  Every clause is RELATIVE TO THE STATE AT THE LOOP HEAD (`entry`): path[0] = new_root,
+    path[j+1] = parent of path[j] in the copy as it was when the walk started, depth falls by one per step, and the walk leaves
+    every column of the copy as it found it.  What the code did to the copy BEFORE the walk is not re-stated here: it reaches the
+    postconditions through the path condition, so a wrong statement before the loop fails a postcondition, not an invariant."""
+    def f(E, v, o, entry):
         t0, n, pid0, depth, root, r = _rr(E, v, o)
         P, L = _path(v)
         j = z3.Int(fresh_name("j"))
+        te = entry["tree"]
+        if not isinstance(te, Obj) or not isinstance(v["tree"], Obj):
+            return False
         if which == "nonempty":
             return L >= 1
         if which == "handles-on-the-copy":
@@ -118,56 +124,56 @@ def rr_inv0(which):
         if which == "nodes-in-range":
             return z3.ForAll([j], z3.Implies(z3.And(j >= 0, j < L), z3.And(z3.Select(P, j) >= 0, z3.Select(P, j) < n)))
         if which == "follows-parent-links":
-            return z3.ForAll([j], z3.Implies(z3.And(j >= 0, j < L - 1), z3.Select(pid0, z3.Select(P, j)) == z3.Select(P, j + 1)))
+            pid_e = col(te, "pid").arr
+            return z3.ForAll([j], z3.Implies(z3.And(j >= 0, j < L - 1), z3.Select(pid_e, z3.Select(P, j)) == z3.Select(P, j + 1)))
         if which == "depth-falls-by-one":
             return z3.ForAll([j], z3.Implies(z3.And(j >= 0, j < L), depth(z3.Select(P, j)) == depth(r) - j))
-        if which == "copy-not-yet-modified":
+        if which == "copy-untouched-by-the-walk":
             t = v["tree"]
+            if set(ndata(t)) != set(ndata(te)):
+                return False
             out = []
-            for k in ndata(t0):
-                out.append(z3.And(col(t, k).nz() == n, forall_rng(n, lambda i, _k=k: z3.Select(col(t, _k).arr, i) == z3.Select(col(t0, _k).arr, i))))
+            for k in ndata(te):
+                out.append(z3.And(col(t, k).nz() == col(te, k).nz(), forall_rng(n, lambda i, _k=k: z3.Select(col(t, _k).arr, i) == z3.Select(col(te, _k).arr, i))))
             return z3.And(*out)
 
     return (which, f)
 
 
-def _new_pid(E, v, o, i, upto=None):
-    """the parent table after reversing the path edges for path positions 1..upto (all when None)"""
+def _on_path(E, v, o, i, upto=None):
+    """(position j, `node i sits at path position j with 1 <= j <= upto`): j = depth(r) - depth(i) is the only path position that can hold i"""
     t0, n, pid0, depth, root, r = _rr(E, v, o)
     P, L = _path(v)
-    j = depth(r) - depth(i)  # the only path position that can hold node i
+    j = depth(r) - depth(i)
     on = z3.And(j >= 1, j < L, z3.Select(P, j) == i)
     if upto is not None:
         on = z3.And(on, j <= upto)
-    return z3.If(on, z3.Select(P, j - 1), z3.If(i == r, z3.IntVal(-1), z3.Select(pid0, i)))
-
-
-def _state_after_swap(E, v, o, upto):
-    """explicit description of the copy while the path edges are being reversed: pid as in _new_pid, the types
-    of the old and the new root exchanged, every other column as in the input"""
-    t0, n, pid0, depth, root, r = _rr(E, v, o)
-    t = v["tree"]
-    ty0 = col(t0, "type").arr
-    out = {}
-    for c in ndata(t0):
-        a1, a0 = col(t, c).arr, col(t0, c).arr
-        if c == "pid":
-            out[c] = forall_rng(n, lambda i: z3.Select(a1, i) == _new_pid(E, v, o, i, upto=upto))
-        elif c == "type":
-            out[c] = forall_rng(n, lambda i: z3.Select(a1, i) == z3.If(i == r, z3.Select(ty0, root), z3.If(i == root, z3.Select(ty0, r), z3.Select(ty0, i))))
-        else:
-            out[c] = forall_rng(n, lambda i, _a1=a1, _a0=a0: z3.Select(_a1, i) == z3.Select(_a0, i))
-    return out
+    return j, on
 
 
 def rr_inv1(c):
-    """loop 1 (reverse the edges of the path): the whole state of the copy, column by column"""
-    def f(E, v, o):
+    """loop 1 (reverse the edges of the path), k iterations done -- RELATIVE TO THE STATE AT THE LOOP HEAD (`entry`, i.e. after the
+    statements between the two loops): every column but the parent column is as it was there; the parent column differs from
+    it exactly at path[1..k], where it holds the preceding path node"""
+    def f(E, v, o, entry):
         t0 = o["tree"]
-        t = v["tree"]
-        if set(ndata(t)) != set(ndata(t0)) or not _handles_on(v, t):
+        t, te = v["tree"], entry["tree"]
+        if not isinstance(t, Obj) or not isinstance(te, Obj) or set(ndata(t)) != set(ndata(te)) or c not in ndata(te) or not _handles_on(v, t):
             return False
-        return z3.And(col(t, c).nz() == nof(t0), _state_after_swap(E, v, o, to_z3(v["_k1"], "int"))[c])
+        n = nof(t0)
+        P, L = _path(v)
+        a1, ae = col(t, c).arr, col(te, c).arr
+        if c == "pid":
+            k = to_z3(v["_k1"], "int")
+
+            def cell(i):
+                j, on = _on_path(E, v, o, i, upto=k)
+                return z3.Select(a1, i) == z3.If(on, z3.Select(P, j - 1), z3.Select(ae, i))
+
+            body = forall_rng(n, cell)
+        else:
+            body = forall_rng(n, lambda i: z3.Select(a1, i) == z3.Select(ae, i))
+        return z3.And(col(t, c).nz() == col(te, c).nz(), body)
 
     return (f"column-{c}", f)
 
@@ -234,6 +240,67 @@ def register_redirect(R):
 
         return (which, f)
 
+    def prop_post(which):
+        """the clause of the PROPERTY STATEMENT over the whole result, the same text for both sort modes: node k of the result is
+        node sigma(k) of the input -- sigma the identity for sort=False, the row permutation of the final sort for sort=True"""
+        def f(E, v, o):
+            t0, n, pid0, depth, root, r = _rr(E, v, o)
+            res = v["result"]
+            if not isinstance(res, Obj) or res is not v["tree"]:
+                return False
+            if which == "input-untouched":
+                live = E.spec_extra["input"]
+                if live is res or live.uid not in E.entry_uids or set(ndata(live)) != set(ndata(t0)) or live.fields["ndata"] is res.fields["ndata"]:
+                    return False
+                if any(ndata(live)[c] is ndata(res)[c] or ndata(live)[c].uid == ndata(res)[c].uid for c in ndata(live) if c in ndata(res)):
+                    return False  # a column array shared between input and result
+                return z3.And(*[z3.And(col(live, c).nz() == n, forall_rng(n, lambda i, _c=c: z3.Select(col(live, _c).arr, i) == z3.Select(col(t0, _c).arr, i))) for c in ndata(t0)])
+            nd, nd0 = ndata(res), ndata(t0)
+            if set(nd) != set(nd0) or not all(type(nd[c]) is SArr for c in nd):
+                return False
+            if v["sort"]:
+                if "presort" not in E.ghost:
+                    return False
+                _, sg, inv = E.ghost["presort"]
+                sigma = lambda k: z3.Select(sg, k)
+                back = inv
+            else:
+                sigma = back = lambda k: k
+            k, a, b = z3.Ints("rr_k rr_a rr_b")
+            rng = lambda x: z3.And(x >= 0, x < n)
+            ty0 = col(t0, "type").arr
+            if which == "every-node-kept":
+                # same number of nodes, numbered by position, and sigma is a bijection between the nodes of the result and of the input
+                return z3.And(*[nd[c].nz() == n for c in nd], z3.ForAll([k], z3.Implies(rng(k), z3.And(z3.Select(nd["id"].arr, k) == k, rng(sigma(k)), back(sigma(k)) == k, rng(back(k)), sigma(back(k)) == k))))
+            if which == "every-attribute-kept":
+                return z3.And(*[z3.ForAll([k], z3.Implies(rng(k), z3.Select(nd[c].arr, k) == z3.Select(nd0[c].arr, sigma(k)))) for c in nd0 if c not in ("id", "pid", "type")])
+            if which == "only-the-types-of-old-and-new-root-exchanged":
+                s_ = sigma(k)
+                return z3.ForAll([k], z3.Implies(rng(k), z3.Select(nd["type"].arr, k) == z3.If(s_ == r, z3.Select(ty0, root), z3.If(s_ == root, z3.Select(ty0, r), z3.Select(ty0, s_)))))
+            pid1 = nd["pid"].arr
+            if which == "undirected-edge-set-kept":
+                e1 = z3.Or(z3.Select(pid1, a) == b, z3.Select(pid1, b) == a)
+                e0 = z3.Or(z3.Select(pid0, sigma(a)) == sigma(b), z3.Select(pid0, sigma(b)) == sigma(a))
+                goal = z3.ForAll([a, b], z3.Implies(z3.And(rng(a), rng(b)), e1 == e0))
+                if v["sort"]:
+                    # a consequence of clauses ALREADY PROVED on this path (each an obligation of its own): the edge set of the table handed to
+                    # the final sort, and that the result is its sorted relabelling.  Proved from those alone (a pure lemma about the clauses,
+                    # no fact about the code enters), then the clause itself is this very term
+                    used = ("same-columns-and-size", "requested-node-is-root", "it-is-the-only-root", "undirected-edges-kept", "every-other-attribute-kept", "sorted/requested-node-becomes-node-0",
+                            "sorted/permutation-of-the-rows", "sorted/ids-are-positions", "sorted/root-first", "sorted/parents-kept-and-before-children")
+                    hyps = [to_z3(E.truth(post(w)[1](E, v, o)), "bool") for w in used] + [rr_pre("ids-are-positions")[1](E, o, o), n >= 1]
+                    prove_from(E, "redirect_tree/step/edge-set-read-through-the-renumbering", hyps, goal)
+                    return z3.simplify(goal)
+                return goal
+            if which == "requested-node-is-the-unique-root":
+                rho = back(r)  # where the requested node sits in the result
+                first = (rho == 0) if v["sort"] else z3.BoolVal(True)
+                return z3.And(rng(rho), sigma(rho) == r, first, z3.Select(pid1, rho) == -1,
+                              z3.ForAll([k], z3.Implies(z3.And(rng(k), k != rho), z3.And(z3.Select(pid1, k) >= 0, z3.Select(pid1, k) < n))))
+            raise KeyError(which)
+
+        return ("property/" + which, f)
+
     def sorted_post(E, v, o, S, w):
         """sort=True: the result is the sorted relabelling of the re-rooted table S"""
         if not v["sort"]:
@@ -276,6 +343,8 @@ def register_redirect(R):
     global RR_POST
     RR_POST = post  # the clause builder, also used by cat_tree's call-site contract of redirect_tree
 
+    PROPERTY = ("input-untouched", "every-node-kept", "every-attribute-kept", "only-the-types-of-old-and-new-root-exchanged", "undirected-edge-set-kept",
+                "requested-node-is-the-unique-root")
     POSTS = ["same-columns-and-size", "fresh-storage", "requested-node-is-root", "it-is-the-only-root", "path-ends-at-the-old-root", "path-edges-reversed",
              "off-path-parents-kept", "undirected-edges-kept", "every-node-reaches-the-new-root", "types-of-old-and-new-root-exchanged", "every-other-attribute-kept"]
 
@@ -284,10 +353,14 @@ def register_redirect(R):
         prop="C07",
         variants={"sort=False": rr_setup(False), "sort=True": rr_setup(True)},
         requires=RR_PRE,
-        ensures=[post(w) for w in POSTS] + [post("sorted/" + w) for w in ("requested-node-becomes-node-0", "every-column-permuted-alike") + RELABEL],
+        # order matters: a proved clause is a hypothesis of the later ones.  The property's clauses about nodes, attributes and types come
+        # FIRST (proved from the code's path condition alone); its clauses about edges and the root come after the helper clauses about
+        # the reversed path, from which they follow
+        ensures=[prop_post(w) for w in PROPERTY[:4]] + [post(w) for w in POSTS] + [post("sorted/" + w) for w in ("requested-node-becomes-node-0", "every-column-permuted-alike") + RELABEL]
+                + [prop_post(w) for w in PROPERTY[4:]],
         options=dict(hints={"call:_sort_tree/pre/ids-distinct": sort_call_hint, "post/every-node-reaches-the-new-root": reach_hint}),
         loops={
-            0: dict(invariant=[rr_inv0(w) for w in ("nonempty", "handles-on-the-copy", "starts-at-new-root", "nodes-in-range", "follows-parent-links", "depth-falls-by-one", "copy-not-yet-modified")],
+            0: dict(invariant=[rr_inv0(w) for w in ("nonempty", "handles-on-the-copy", "starts-at-new-root", "nodes-in-range", "follows-parent-links", "depth-falls-by-one", "copy-untouched-by-the-walk")],
                     types={"path": node_handles}, modifies=["tree.ndata"],
                     decreases="depth(path[len_(path) - 1].idx)"),
             1: dict(invariant=[rr_inv1(c) for c in KEYS + ["tag"]], modifies=["tree.ndata"]),
